@@ -1,7 +1,9 @@
 (* Props/C14.v — property theorems only.  `ext_laws` bundles the round-trip laws of the
-   EXTERNAL codecs (btcutil base58check, bech32, bech32.ConvertBits); `regroup_law` is the
-   round-trip law of the repository's blech32.ConvertBits (a premise, see MANIFEST note). *)
-From GE Require Import Lib.Bytes Model.Blech32 Proofs.Blech32 Model.Address Proofs.Address.
+   EXTERNAL codecs (btcutil base58check, bech32, bech32.ConvertBits); `regroup_law` /
+   `regroup_back_law` are the regrouping laws of the repository's blech32.ConvertBits: they were premises
+   and are now theorems (C14_regroup_law, C14_regroup_back_law); the statements with the premise are kept,
+   followed by the premise-free ones. *)
+From GE Require Import Lib.Bytes Model.Blech32 Proofs.Blech32 Proofs.Regroup Model.Address Proofs.Address Proofs.AddressRegroup.
 Import B32 Addr.
 Open Scope N_scope.
 
@@ -87,6 +89,23 @@ Theorem C14_conf_unconf_segwit : regroup_law -> forall n tr key prog, In n nets 
     from_confidential b58enc b58dec bech_dec bech_enc bcb c = Ok (u, key, scr).
 Proof. exact (conf_unconf_segwit_l _ _ _ _ _ L). Qed.
 
+(* the same two theorems without the regrouping premise *)
+Theorem C14_blech32_forms_closed : forall n tr key prog, In n nets -> seg_ok tr prog -> length key = 33%nat ->
+  exists s, to_blech32 (n_blech32 n) (seg_ver tr) key prog = Ok s /\
+    from_blech32 s = Ok (n_blech32 n, seg_ver tr, key, prog) /\
+    network_for_address b58dec s = Ok n /\ decode_type b58dec bech_dec bcb s = Ok (cseg_type tr prog) /\
+    is_confidential b58dec bech_dec bcb s = Ok true /\
+    to_output_script b58dec bech_dec bcb s = of_opt (script_segwit (seg_ver tr) prog).
+Proof. exact (blech32_forms_l _ _ _ _ _ L regroup_law_holds). Qed.
+Theorem C14_conf_unconf_segwit_closed : forall n tr key prog, In n nets -> seg_ok tr prog -> length key = 33%nat ->
+  exists u c scr, to_bech32 bech_enc bcb (n_bech32 n) (seg_ver tr) prog = Ok u /\
+    to_blech32 (n_blech32 n) (seg_ver tr) key prog = Ok c /\
+    script_segwit (seg_ver tr) prog = Some scr /\
+    to_output_script b58dec bech_dec bcb u = Ok scr /\ to_output_script b58dec bech_dec bcb c = Ok scr /\
+    to_confidential b58enc b58dec bech_dec bcb u key = Ok c /\
+    from_confidential b58enc b58dec bech_dec bech_enc bcb c = Ok (u, key, scr).
+Proof. exact (conf_unconf_segwit_l _ _ _ _ _ L regroup_law_holds). Qed.
+
 (* version-0 programs only with the bech32 constant, version-1 programs only with bech32m:
    the same program under the constant of the other version is rejected (fix e7c9f3c) *)
 Theorem C14_other_constant_rejected : forall n tr prog s', In n nets -> seg_ok tr prog ->
@@ -129,6 +148,8 @@ Print Assumptions C14_bech32_forms.
 Print Assumptions C14_blech32_forms.
 Print Assumptions C14_conf_unconf_base58.
 Print Assumptions C14_conf_unconf_segwit.
+Print Assumptions C14_blech32_forms_closed.
+Print Assumptions C14_conf_unconf_segwit_closed.
 Print Assumptions C14_other_constant_rejected.
 Print Assumptions C14_bech32_recognised_reencodes.
 Print Assumptions C14_recognised_bech32_versions.
@@ -140,3 +161,20 @@ Theorem C14_blech32_recognised_reencodes : forall s p v k pr, regroup_back_law -
   from_blech32 s = Ok (p, v, k, pr) -> to_blech32 p v k pr = Ok (map to_lower s).
 Proof. exact blech32_recognised_reencodes. Qed.
 Print Assumptions C14_blech32_recognised_reencodes.
+
+(* ---- the regrouping laws of blech32.ConvertBits, for all byte lists (Proofs/Regroup.v) ---- *)
+Theorem C14_regroup_law : forall d, exists c, convert_bits d 8 5 true = Some c /\
+  Forall (fun b => n8 b < 32) c /\ convert_bits c 5 8 false = Some d /\ (length c <= 2 * length d)%nat.
+Proof. exact regroup_roundtrip. Qed.
+Print Assumptions C14_regroup_law.
+
+Theorem C14_regroup_back_law : forall c d, Forall (fun b => n8 b < 32) c ->
+  convert_bits c 5 8 false = Some d -> convert_bits d 8 5 true = Some c.
+Proof. exact regroup_back. Qed.
+Print Assumptions C14_regroup_back_law.
+
+(* ... hence, without premise: whatever FromBlech32 accepts re-encodes to its lower-case spelling *)
+Theorem C14_blech32_recognised_reencodes_closed : forall s p v k pr,
+  from_blech32 s = Ok (p, v, k, pr) -> to_blech32 p v k pr = Ok (map to_lower s).
+Proof. exact (fun s p v k pr => blech32_recognised_reencodes s p v k pr regroup_back_law_holds). Qed.
+Print Assumptions C14_blech32_recognised_reencodes_closed.
